@@ -125,7 +125,8 @@ Proof. vm_compute. reflexivity. Qed.
 Theorem adjoint_space_same_term : String.eqb afs_term_adjoint afs_term_direct = true.
 Proof. vm_compute. reflexivity. Qed.
 
-(* every mesh field the adjoint constructor passes is copied verbatim; the only field it may drop is block_maps *)
-Theorem adjoint_mesh_rebuild_partial :
-  afs_mesh_fields_wrong = [] /\ forallb (fun f => String.eqb f "block_maps") afs_mesh_fields_missing = true.
-Proof. vm_compute. split; reflexivity. Qed.
+(* the mesh re-made by the adjoint constructor carries EVERY field of the Mesh namedtuple, each copied verbatim from the
+   original mesh except coords := coords (fails if a field is dropped again, as block_maps was before ce2f754) *)
+Theorem adjoint_mesh_rebuild :
+  afs_mesh_fields_missing = [] /\ afs_mesh_fields_wrong = [] /\ afs_mesh_rebuild_copies_all_fields = true.
+Proof. vm_compute. repeat split; reflexivity. Qed.
